@@ -335,7 +335,17 @@ def check_loop_identity(col, repo, methods):
         if ok:
             a = kwarg(calls[0], "args")
             fn_ = kwarg(calls[0], "func")
-            ok = a is not None and src(a).replace(" ", "") == "[seq.sequence_value().as_ast()]" and fn_ is not None
+            # the argument list with locals substituted along the path (a local may be re-used or split into two names):
+            # [ as_sequence(<the operator's source>).sequence_value().as_ast() ]
+            from sa.core.paths import substituted_paths
+            import re as _re2
+            texts = set()
+            for items in substituted_paths(f.node):
+                for k_, c_, *_ in items:
+                    if k_ == "call" and src(c_.func) == "ast.Call" and kwarg(c_, "args") is not None:
+                        texts.add(src(kwarg(c_, "args")).replace(" ", ""))
+            ok = a is not None and fn_ is not None and len(texts) == 1 and _re2.fullmatch(
+                r"\[self\.as_sequence\((cast\(ast\.expr,)?args\[0\]\)?\)\.sequence_value\(\)\.as_ast\(\)\]", next(iter(texts))) is not None
             lam = resolve_name(f.node, fn_)
             if isinstance(lam, ast.Name):
                 lams = [strip_cast(d) for d in defs_of(f.node, lam.id)]
